@@ -47,6 +47,14 @@ def gen_c16(rng: random.Random, sid: str, thorough: bool) -> dict:
                 sp = rng.choice(regs)
                 out.append({'op': 'query', 'qs': [{'name': sp['type'], 'type': wire.T_PTR, 'sp': rng.randint(0, 2), 'qu': True}], 'tc': True,
                             'qid': rng.randint(0, 65535), 'src': rng.choice(['10.0.0.9', '10.0.0.23']), 'known': []})
+        if st['op'] == 'at' and rng.random() < 0.08:
+            # a query that mixes a QU question with one QM question of a type that is answered at once when asked alone
+            regs = [x['svc'] for x in steps if x['op'] == 'reg']
+            if regs:
+                sp = rng.choice(regs)
+                qm = rng.choice([{'name': sp['host'], 'type': wire.T_A}, {'name': sp['name'], 'type': wire.T_SRV}, {'name': sp['host'], 'type': wire.T_AAAA}])
+                out.append({'op': 'query', 'qs': [{'name': sp['type'], 'type': wire.T_PTR, 'sp': 0, 'qu': True}, dict(qm, sp=rng.randint(0, 2), qu=False)],
+                            'qid': 0, 'src': rng.choice(['10.0.0.9', '10.0.0.23']), 'known': []})
         if st['op'] == 'at' and rng.random() < 0.25:
             out.append({'op': 'resp', 'recs': remote_recs(rng)})
             if rng.random() < 0.2:
@@ -148,6 +156,11 @@ def record_pair(job: Tuple[dict, Any]) -> dict:
             # (AAAA records heard on an IPv6 socket never equal the host's own: no recency for them, finding D22)
             'norecency': sorted({x['id'] for x in it.table if x['type'] == 28}) if sc.get('layout') == 'dual' else [],
             'rrof': {str(x['id']): x['rr'] for x in it.table},
+            # mixed queries (QU and QM questions, no authority section, from port 5353): their QM answers go through the aggregation
+            # queue, which holds each record once -- a multicast of them at the instant of the copy is not what D9 doubles
+            'mixed': [{'t': d['t'], 'qm': [[q[0], q[1]] for q in d.get('qs', []) if not q[2]], 'quq': [[q[0], q[1]] for q in d.get('qs', []) if q[2]]}
+                      for d in dup['dups'] if d['qu'] and not d.get('legacy') and not d.get('tc') and len(d.get('qs', [])) >= 2 and any(not q[2] for q in d['qs'])],
+            'recinfo': {str(x['id']): [x['nb'], x['type']] for x in it.table},
             'ndups': len(dup['dups']),
             'n_inj': ref.get('events') and sum(1 for e in ref['events'] if e['ev'] == 'recv' and e.get('inj')) or 0,
             'sc': sc['id'], 'mode': mode}
@@ -211,6 +224,15 @@ def run_pairs(ctx: Ctx, jobs: List[Tuple[dict, Any]]) -> None:
             # ... and so is an AAAA record on an instance that listens on an IPv6 socket: it is never found recently multicast (D22)
             if rids and recent == set(rids) and d['t'] not in p.get('quprobes', []) and not (set(rids) & set(p.get('norecency', []))):
                 disc = 'extra-multicast-of-recently-multicast-records'
+            else:
+                info = p.get('recinfo', {})
+
+                def answers(r: int, qq: list) -> bool:
+                    ri = info.get(str(r))
+                    return ri is not None and any(ri[0] == q[0] and (q[1] in (ri[1], 255)) for q in qq)
+                for mq in p.get('mixed', []):
+                    if mq['t'] == d['t'] and rids and all(answers(r, mq['qm']) and not answers(r, mq['quq']) for r in rids):
+                        disc = 'extra-multicast-of-qm-answers'
         elif clause in ('C16_SameListenerCalls', 'C16_NothingLost') and d is not None and d['k'] == 'lc' and d['t'] in p.get('echo', []):
             clause = 'C16_SameListenerCalls'     # (at a tie with another event of the same instant the lockstep names the other side)
             # same cause as D9: a datagram with a QU question -- here a response that echoes one -- is exempt from the guard
